@@ -37,12 +37,35 @@ type Run struct {
 	Explanation string
 	curRule     string
 	seen        map[string]bool
+	Alias       string   // see Rule
+	cfg         string   // build configuration of the current pass ("" = default)
+	Configs     []string // build configurations analysed
 }
 
-func (r *Run) Rule(id string) { r.curRule = id }
+// Rule sets the rule id of the obligations that follow.  While Alias is set
+// (a rule set shared from another property) the id reads "<alias>←<id>".
+func (r *Run) Rule(id string) {
+	if r.Alias != "" {
+		r.curRule = r.Alias + "←" + id
+		return
+	}
+	r.curRule = id
+}
+
+// Shared runs rules written for another property under an alias rule id.
+func (r *Run) Shared(alias string, f func()) {
+	old, oldRule := r.Alias, r.curRule
+	r.Alias = alias
+	r.curRule = alias
+	f()
+	r.Alias, r.curRule = old, oldRule
+}
 
 func (r *Run) add(key string, ok bool, where, detail string) {
 	full := r.curRule + ":" + key
+	if r.cfg != "" {
+		full += " [" + r.cfg + "]"
+	}
 	if r.seen == nil {
 		r.seen = map[string]bool{}
 	}
@@ -159,13 +182,32 @@ func runCheck(id, tier string) int {
 		}
 	}
 	r := &Run{Prop: id, Tier: tier, Funcs: map[string]bool{}, Floors: map[string][2]int{}, Explanation: pd.Explanation}
-	p, err := Load(repoRoot())
-	if err != nil {
-		// a tree that does not load is reported as a violation of the check's
-		// precondition: nothing can be decided.
-		r.curRule = id + ".LOAD"
-		r.Fail("load", "-", "undecided: "+err.Error())
-	} else {
+	// quick: the default build configuration.  thorough: additionally the other
+	// configurations the repository is built for (32-bit ints, other GOOS
+	// file sets); every rule must hold under each of them.
+	configs := []string{""}
+	if tier == "thorough" {
+		configs = append(configs, "GOARCH=386 CGO_ENABLED=0", "GOOS=darwin GOARCH=arm64 CGO_ENABLED=0", "GOOS=windows GOARCH=amd64 CGO_ENABLED=0")
+	}
+	var p *Prog
+	for _, cfg := range configs {
+		if cfg == "" {
+			os.Unsetenv("CTVERIF_LOADENV")
+			r.Configs = append(r.Configs, "default (host GOOS/GOARCH)")
+		} else {
+			os.Setenv("CTVERIF_LOADENV", cfg)
+			r.Configs = append(r.Configs, cfg)
+		}
+		r.cfg = cfg
+		var err error
+		p, err = Load(repoRoot())
+		if err != nil {
+			// a tree that does not load is reported as a violation of the check's
+			// precondition: nothing can be decided.
+			r.curRule = id + ".LOAD"
+			r.Fail("load", "-", "undecided: "+err.Error())
+			continue
+		}
 		r.P = p
 		r.D = NewDescriber(p)
 		gD = r.D
@@ -179,6 +221,7 @@ func runCheck(id, tier string) int {
 			pd.Run(r)
 		}()
 	}
+	os.Unsetenv("CTVERIF_LOADENV")
 	findings, ferr := loadFindings()
 	if ferr != nil {
 		r.curRule = id + ".FINDINGS"
@@ -199,7 +242,11 @@ func runCheck(id, tier string) int {
 			discharged++
 			continue
 		}
-		if f, ok := known[o.Key]; ok {
+		baseKey := o.Key
+		if i := strings.Index(baseKey, " ["); i > 0 && strings.HasSuffix(baseKey, "]") {
+			baseKey = baseKey[:i]
+		}
+		if f, ok := known[baseKey]; ok {
 			knownHits++
 			lines = append(lines, fmt.Sprintf("KNOWN-FINDING: property=%s %s [%s @ %s]", id, f.What, o.Key, o.Where))
 			continue
@@ -244,21 +291,22 @@ func runCheck(id, tier string) int {
 		"seed":        seed,
 		"level":       "other",
 		"coverage": map[string]any{
-			"explanation":         r.Explanation,
-			"obligations":         len(r.Obls),
-			"discharged":          discharged,
-			"known_findings_hit":  knownHits,
-			"evaluations":         len(r.Obls) + r.Valuations,
-			"distinct_nontrivial": len(distinct),
-			"rule":                "one obligation per (rule, construct) pair found in /repo's current source; distinct by key; every obligation inspects resolved SSA/AST/type information (non-trivial by construction: anchors that do not resolve and rules below their instance floor fail instead of passing)",
-			"valuations":          r.Valuations,
-			"packages_loaded":     npk,
-			"functions_analysed":  fns,
-			"obligations_by_rule": rules,
-			"instance_floors":     r.Floors,
-			"samples":             samples,
-			"checker_cmd":         "bin/ctverif check " + id + " --tier " + tier,
-			"exhaustive":          false,
+			"explanation":          r.Explanation,
+			"obligations":          len(r.Obls),
+			"discharged":           discharged,
+			"known_findings_hit":   knownHits,
+			"evaluations":          len(r.Obls) + r.Valuations,
+			"distinct_nontrivial":  len(distinct),
+			"rule":                 "one obligation per (rule, construct) pair found in /repo's current source; distinct by key; every obligation inspects resolved SSA/AST/type information (non-trivial by construction: anchors that do not resolve and rules below their instance floor fail instead of passing)",
+			"valuations":           r.Valuations,
+			"packages_loaded":      npk,
+			"build_configurations": r.Configs,
+			"functions_analysed":   fns,
+			"obligations_by_rule":  rules,
+			"instance_floors":      r.Floors,
+			"samples":              samples,
+			"checker_cmd":          "bin/ctverif check " + id + " --tier " + tier,
+			"exhaustive":           false,
 		},
 		"assumptions": r.Assumptions,
 		"wall_s":      time.Since(start).Seconds(),
